@@ -357,6 +357,52 @@ def exhaustive_negotiation(rec):
     rec.count('exh.headers', idx // rec.nshards)
 
 
+def exhaustive_many_params(rec):
+    """Candidates and ranges with 0..12 shared parameters competing across the specificity levels
+    (exact type/subtype, wildcard subtype, */*), so that no count of matching parameters - however large -
+    may outrank a more important criterion."""
+    NP = 12
+    names = ['p%d' % i for i in range(NP)]
+
+    def params(k, extra=False, rev=False):
+        ps = ['%s=v%d' % (names[i], i) for i in range(k)]
+        if rev:
+            ps.reverse()
+        if extra:
+            ps.append('zz=1')
+        return ''.join(';' + x for x in ps)
+    cands = ['text/plain' + params(NP), 'text/plain' + params(10, rev=True), 'text/plain' + params(9),
+             'text/plain' + params(NP) + ';other=1', 'text/plain']
+    levels = ['text/plain', 'text/*', '*/*']
+    forms = []
+    for lv in levels:
+        for k in range(NP + 1):
+            forms.append(lv + params(k, rev=bool(k % 2)))
+        for k in (0, 9, 10, 12):
+            forms.append(lv + params(k, extra=True))
+    idx = 0
+    qpairs = [('0.2', '0.9'), ('0', '0.9'), ('0.9', '0'), ('0.5', '0.5')]
+    for i, f1 in enumerate(forms):
+        for j, f2 in enumerate(forms):
+            if f1.split(';')[0] == f2.split(';')[0] and (i + j) % 3:
+                continue                 # same level: a third of the pairs is enough
+            idx += 1
+            if idx % rec.nshards != rec.shard:
+                continue
+            q1, q2 = qpairs[idx % len(qpairs)]
+            header = '%s;q=%s, %s;q=%s' % (f1, q1, f2, q2)
+            if idx % 5 == 0:
+                header += ', */*;q=0.1'
+            for c in cands:
+                check_quality(rec, c, header)
+            rec.count('cls.many_params')
+            check_best_match(rec, [cands[4], cands[idx % 4], 'image/png'], header, iterable_kind=idx)
+            check_best_match(rec, ['image/png', cands[(idx + 1) % 4]], header, iterable_kind=idx + 1)
+            if idx % 9 == 0:
+                check_client(rec, header, [cands[idx % 4], cands[4]])
+            rec.case(('mp', header))
+
+
 SPECIAL_CANDS = ['text/ plain', 'text /plain;a=1', ' text / html', 'text/\tplain;a=2', 'text/plain;q=0', 'text/plain;q=0.5',
                  'text/plain;a=1;q=0', 'text/html;Q=1', 'text/plain; q=0']
 
@@ -1300,6 +1346,7 @@ def run(rec):
     world = World()
     hostile_app_preamble(rec)
     exhaustive_negotiation(rec)
+    exhaustive_many_params(rec)
     exhaustive_histories(rec, world)
     exhaustive_errser_ties(rec, world)
     exhaustive_odd_keys(rec, world)
@@ -1338,7 +1385,7 @@ def run(rec):
                     ('chg.set', 20), ('chg.del', 20), ('chg.update', 10), ('chg.pop', 10), ('chg.popitem', 10),
                     ('chg.setdefault', 5), ('chg.clear', 10), ('chg.default', 10), ('chg.ior', 5),
                     ('op.copy', 10), ('op.copycopy', 5), ('op.or', 5),
-                    ('errser.tie_among_registered', 20), ('cls.special_candidate', 100), ('why.blank-round-slash', 50),
+                    ('errser.tie_among_registered', 20), ('cls.special_candidate', 100), ('cls.many_params', 500), ('why.blank-round-slash', 50),
                     ('mon.parse_header', 500), ('mon.parse_header_owned', 500), ('ph.no_options', 100),
                     ('ph.with_options', 100),
                     ('op.update_fail', 20), ('op.ior_fail', 10), ('op.fail.applied_some', 20), ('op.fail.base_exception', 20), ('op.fail.exception', 20), ('chg.update_fail', 10),
